@@ -137,6 +137,18 @@ class World:
         arr = self.own(s["id"], "mask", bits(s["bits"], tuple(s["shape"])))
         return aa.Mask2D(mask=arr, pixel_scales=tuple(s["pixel_scales"]), origin=tuple(s.get("origin", (0.0, 0.0))))
 
+    def _b_mask2d_ctor(self, s):
+        import autoarray as aa
+
+        kw = {k: (tuple(v) if isinstance(v, list) and k != "pixel_coordinates" else v) for k, v in s["kw"].items()}
+        return getattr(aa.Mask2D, s["ctor"])(**kw)
+
+    def _b_kernel_gaussian(self, s):
+        import autoarray as aa
+
+        kw = {k: (tuple(v) if isinstance(v, list) else v) for k, v in s["kw"].items()}
+        return aa.Kernel2D.from_gaussian(**kw)
+
     def _b_mask1d(self, s):
         import autoarray as aa
 
@@ -362,12 +374,19 @@ class World:
         return aa.Inversion(dataset=self.n(s["dataset"]), linear_obj_list=[self.n(o) for o in s["objs"]], **kw)
 
     def _b_fit_imaging(self, s):
+        import autoarray as aa
+
         FitStub = userobjs.classes()["FitStub"]
+        dm = None
+        if s.get("dataset_model"):
+            d = s["dataset_model"]
+            dm = aa.DatasetModel(background_sky_level=float(d.get("background_sky_level", 0.0)), grid_offset=tuple(d.get("grid_offset", (0.0, 0.0))))
         return FitStub(
             dataset=self.n(s["dataset"]),
             model_data=self.opt(s.get("model")),
             inversion=self.opt(s.get("inversion")),
             use_mask_in_fit=bool(s.get("use_mask_in_fit", False)),
+            dataset_model=dm,
         )
 
     def _b_mapper_valued(self, s):
